@@ -237,6 +237,7 @@ CONFIG = {
     "case_to_replay": _c05_case,
     "post_model": _c05_vm_sample,
     "assumptions": [
+        "every reader behaviour: the correspondence cases hand the code scripted readers (optionally inside one io.LimitReader, and - reader behaviour nested-verify-reader - inside a content.VerifyReader for the same digest built with the stream's true length); the theorems C05_verify_any_reader / C05_verify_reader_closure / C05_nested_verify_reader quantify over ANY reader state machine obeying the io.Reader contract (at most len(p) bytes per Read), C05_any_reader_instance_is_model ties the generic definitions to the scripted-reader model that is run against the code; a reader that returns more than len(p) bytes is outside the quantifier (it panics io.LimitedReader's callers)",
         "the digest function is a parameter H : algorithm -> bytes -> encoded digest of every theorem, with NO assumption (no collision freedom is used); the correspondence supplies the SHA-2 values (crypto/sha256, crypto/sha512 of the Go standard library) to the extracted model as a table",
         "go-digest (pinned dependency): the algorithm table (names, encoded lengths, lower-case hex) is regenerated by the translator from its algorithm.go (kind c05_digest_algs); Digest.Validate's control flow and Verified() = (digest == alg:hex(hash)) are hand-modelled; all three algorithms are available because the harness links crypto/sha256 and crypto/sha512",
         "io.LimitedReader, io.TeeReader, io.ReadFull (io.ReadAtLeast) and io.CopyBuffer (incl. its write-error / io.ErrShortWrite handling: copy_loop_w) of the Go standard library are hand-modelled statement by statement and tied by the correspondence; os.File.ReadFrom falls back to io.Copy with a 32 KiB buffer for a *VerifyReader source (go1.26.8, linux) -- irrelevant: the theorems hold for every buffer size and C05_copybuffer_bufsz_independent proves the result is the same for all of them",
